@@ -22,7 +22,7 @@ RULE = (
     "inserts in reverse; appends with interleaved removals) that end in the same sequence; in 40% of the pairs the two "
     "files are of different classes of the same family (framework class, a subclass, a sibling, a sub-subclass); "
     "compared with the model. reread: (register definitions, content) read twice -> the two files must be equal and "
-    "write identical output; a third file with the same elements is built through the API and, when it compares equal, must write the same output too. history (objects with a past): in 30% of the pairs one or both files are first built holding OTHER values at one to three positions, compared once (both ways, files and containers), and then brought to the sequence of the case by in-place edits of the elements (assignment into element.data[k], or a new list through the data setter) before the comparisons that are observed - the model is given the final sequences only; in every reread case a further file (the one read, or one built through the API) goes through one or two rounds of earlier uses (written once or twice, written element by element, compared with a twin) each followed by in-place edits of one to three values (element.data[k] = v directly, through a user-defined property whose setter assigns into self.data[k], a new list through the data setter, a new line for a default register; sometimes edited back to the old values) and is then compared with a file freshly built from copies of the values it now holds: when the two compare equal they must write identical output. non-trivial = pair with same-family right-hand side of length >= 1; distinct by full case."
+    "write identical output; a third file with the same elements is built through the API and, when it compares equal, must write the same output too. history (objects with a past): in 30% of the pairs one or both files are first built holding OTHER values at one to three positions, compared once (both ways, files and containers), and then brought to the sequence of the case by in-place edits of the elements (assignment into element.data[k], or a new list through the data setter) before the comparisons that are observed - the model is given the final sequences only; in every reread case a further file (the one read, or one built through the API) goes through one or two rounds of earlier uses (written once or twice, written element by element, compared with a twin) each followed by in-place edits of one to three values (element.data[k] = v directly, through a user-defined property whose setter assigns into self.data[k], a new list through the data setter, a new line for a default register; sometimes edited back to the old values) and is then compared with a file freshly built from copies of the values it now holds: when the two compare equal they must write identical output. accepted formats and other content in between: in half of the reread cases the date columns are declared with a LIST of two or three accepted formats (some of them ambiguous with each other) and lines whose dates are rendered in any of the accepted formats are mixed into the content; in half of the reread cases a second content for the same register types (lines of the first one reshuffled plus new lines, dates in any accepted format) is read and written with the same file class between two writes of the first file and before the content is read once more - the first file must write the same output before and after, and the content read again must give a file equal to the first one that writes the same output. non-trivial = pair with same-family right-hand side of length >= 1; distinct by full case."
 )
 ASSUMPTIONS = [
     "element classes of the harness use the isinstance(o, self.__class__) idiom of cfinterface.Register",
@@ -278,6 +278,32 @@ def history_check(case, RF, classes, x, written):
     return False, {"file": base, "steps": steps, "it_writes": wf[1], "fresh_equal_file_writes": wg[1]}
 
 
+def between_check(case, RF, x, f1, written):
+    """other content for the same register types is read (and written) with the same file class between two
+    writes of one file and two reads of one content: a file is equal to itself and must write the same output
+    both times; the content read again must give an equal file, and equal files write identical output"""
+    if case.get("between") is None:
+        return {}, None
+    y = codec.dec_str(case["between"])
+    w_before = written(f1)
+    other = RF.read(y)
+    if case.get("between_written", True):
+        written(other)
+    w_after = written(f1)
+    f5 = RF.read(x)
+    again_equal = bool(f1 == f5) and bool(f5 == f1) and bool(f1.data == f5.data) and not (f1 != f5)
+    w5 = written(f5)
+    checks = {
+        "same_file_writes_identical_output_before_and_after_other_content_is_read": w_before == w_after,
+        "content_read_again_after_other_content_gives_an_equal_file": again_equal,
+        "content_read_again_after_other_content_writes_identical_output": (w5 == w_after) if again_equal else True,
+    }
+    if all(checks.values()):
+        return checks, None
+    fmts = [[codec.dec_str(f) for f in fd["fmts"]] for r in case["regs"] for fd in r["fields"] if fd["k"] == "date"]
+    return checks, {"read_in_between": y, "accepted_date_formats": fmts, "first_file_wrote_before": w_before[1], "first_file_wrote_after": w_after[1], "content_read_again_wrote": w5[1]}
+
+
 def run_impl(case):
     try:
         if case["shape"] == "reread":
@@ -328,7 +354,8 @@ def run_impl(case):
             f4 = RF(data=data4)
             flt_ok = (written(f1) == written(f4)) if bool(f1 == f4) and bool(f4 == f1) else True
             hist_ok, hist_detail = history_check(case, RF, classes, x, written)
-            return {**({"history": hist_detail} if hist_detail else {}), "checks": {"file_used_before_and_edited_in_place_writes_like_a_freshly_built_equal_file": hist_ok, "equal_file_holding_whole_numbers_as_floats_writes_identical_output": flt_ok, "equal_file_built_through_the_api_writes_identical_output": api_ok, "read_twice_files_equal": bool(f1 == f2), "read_twice_reverse_equal": bool(f2 == f1), "read_twice_not_unequal": not (f1 != f2), "read_twice_data_equal": bool(f1.data == f2.data), "equal_files_write_identical_output": written(f1) == written(f2)}}
+            btw, btw_detail = between_check(case, RF, x, f1, written)
+            return {**({"history": hist_detail} if hist_detail else {}), **({"between": btw_detail} if btw_detail else {}), "checks": {**btw, "file_used_before_and_edited_in_place_writes_like_a_freshly_built_equal_file": hist_ok, "equal_file_holding_whole_numbers_as_floats_writes_identical_output": flt_ok, "equal_file_built_through_the_api_writes_identical_output": api_ok, "read_twice_files_equal": bool(f1 == f2), "read_twice_reverse_equal": bool(f2 == f1), "read_twice_not_unequal": not (f1 != f2), "read_twice_data_equal": bool(f1.data == f2.data), "equal_files_write_identical_output": written(f1) == written(f2)}}
         fam = case["family"]
         types = mk_classes(fam)
         ha, hb = case.get("hist_a"), case.get("hist_b") if case["b"] is not None else None
@@ -376,6 +403,8 @@ def judge(case, obs, resp):
     if not resp["holds"]:
         if case["shape"] == "reread":
             more = f"; history: {obs['history']}" if isinstance(obs, dict) and obs.get("history") else ""
+            if isinstance(obs, dict) and obs.get("between"):
+                more += f"; other content in between: {obs['between']}"
             return {"status": "oracle", "why": f"reading {codec.dec_str(case['content'])!r} twice: {resp.get('failed')} is false{more}"}
         past = "".join(f"; {side} first held {with_old(case[side], case['hist_' + side])}, was compared, then edited in place ({case.get('hist_style', 'item')}) to the sequence shown" for side in ("a", "b") if case.get("hist_" + side) and case[side] is not None)
         return {"status": "oracle", "why": f"a={case['a']} b={case['b'] if case['b'] is not None else case.get('foreign')}: got {obs}; required {resp.get('model')}{past}"}
@@ -495,9 +524,76 @@ def random_pair(rng):
     return case
 
 
+DATE_FORMATS = {
+    6: ["%d%m%y", "%y%m%d", "%m%d%y"],
+    8: ["%d/%m/%y", "%m/%d/%y", "%y-%m-%d", "%Y%m%d", "%d%m%Y", "%d%m%y"],
+    10: ["%Y/%m/%d", "%d-%m-%Y", "%m-%d-%Y", "%d/%m/%Y", "%Y%m%d", "%d/%m/%y"],
+}
+
+
+def widen_dates(rng, regs):
+    """date columns that accept a list of two or three formats (DatetimeField(format=[...]))"""
+    regs = json.loads(json.dumps(regs))
+    for r in regs:
+        for fd in r["fields"]:
+            if fd["k"] == "date" and rng.random() < 0.8:
+                pool = DATE_FORMATS.get(fd["size"], DATE_FORMATS[10])
+                fd["fmts"] = [codec.enc_str(f) for f in rng.sample(pool, rng.randrange(2, 4))]
+    return regs
+
+
+def dated_line(rng, r):
+    """a line of register type r whose date columns hold a date rendered in ANY of the accepted formats
+    (a day up to 12 half of the time: day and month can then be taken for each other)"""
+    from datetime import datetime
+
+    def tok(f):
+        if f["k"] == "date" and rng.random() < 0.9:
+            day = rng.randrange(1, 13) if rng.random() < 0.5 else rng.randrange(13, 29)
+            d = datetime(rng.randrange(1970, 2069), rng.randrange(1, 13), day)
+            return d.strftime(codec.dec_str(rng.choice(f["fmts"])))
+        return rng.choice(c04.SAMPLE_DATA)
+
+    ident = codec.dec_str(r["ident"])
+    if r.get("delimiter"):
+        return codec.dec_data(r["delimiter"]).join([ident] + [tok(f) for f in r["fields"]]) + "\n"
+    width = max([r["digits"]] + [f["start"] + f["size"] for f in r["fields"]])
+    line = list(ident.ljust(width))
+    for f in r["fields"]:
+        t = tok(f)[: f["size"]]
+        t = t.rjust(f["size"]) if f["k"] in ("int", "flt") else t.ljust(f["size"])
+        line[f["start"] : f["start"] + f["size"]] = list(t)
+    return "".join(line) + "\n"
+
+
+def with_dated_lines(rng, regs, lines, n):
+    with_date = [r for r in regs if any(f["k"] == "date" for f in r["fields"])] or regs
+    lines = list(lines)
+    for _ in range(n):
+        lines.insert(rng.randrange(len(lines) + 1), dated_line(rng, rng.choice(with_date)))
+    return lines
+
+
 def random_reread(rng):
     c = c04.random_case(rng)
-    return {"shape": "reread", "regs": c["regs"], "content": c["content"], "hist": rng.randrange(1 << 30)}
+    case = {"shape": "reread", "regs": c["regs"], "content": c["content"], "hist": rng.randrange(1 << 30)}
+    x = codec.dec_str(case["content"])
+    if rng.random() < 0.5:
+        # date columns with several accepted formats; lines in any of them mixed into the content
+        case["regs"] = widen_dates(rng, case["regs"])
+        lines = x.splitlines(True)
+        if lines and not lines[-1].endswith("\n"):
+            lines[-1] += "\n"
+        x = "".join(with_dated_lines(rng, case["regs"], lines, rng.randrange(1, 5)))
+        case["content"] = codec.enc_str(x)
+    if rng.random() < 0.5:
+        # other content for the same register types, read (and usually written) in between
+        lines = x.splitlines(True)
+        rng.shuffle(lines)
+        lines = [l if l.endswith("\n") else l + "\n" for l in lines[: rng.randrange(0, 4)]]
+        case["between"] = codec.enc_str("".join(with_dated_lines(rng, case["regs"], lines, rng.randrange(1, 5))))
+        case["between_written"] = rng.random() < 0.7
+    return case
 
 
 def corpus_cases():
@@ -539,6 +635,12 @@ def shrinks(case):
         if n > 1:
             for i in range(n):
                 yield {**case, "regs": case["regs"][:i] + case["regs"][i + 1 :]}
+        if case.get("between") is not None:
+            yield {k: v for k, v in case.items() if k not in ("between", "between_written")}
+            bl = codec.dec_str(case["between"]).splitlines(True)
+            if len(bl) > 1:
+                for i in range(len(bl)):
+                    yield {**case, "between": codec.enc_str("".join(bl[:i] + bl[i + 1 :]))}
         return
     for side in ("a", "b"):
         if case.get("hist_" + side):
